@@ -840,3 +840,26 @@ def nothing_to_assign(rng):
     sc['essential'] = [2]
     sc['variant'] = variant
     return sc
+
+
+def reannounce(rng):
+    """C02/C19: the client lets a listed peer go (it had nothing to offer on its first visit and said NotInterested:
+    "End job normally").  The peer stays reachable and the tracker still lists it: the client has to announce again,
+    connect to it again, and - once the peer holds the pieces and the other peers are gone - finish the download."""
+    gname = rng.choice(['g4', 'g2', 'g3'])
+    pl, files, n, plens = geo(gname)
+    part = set(rng.sample(range(n), rng.randint(1, n - 1)))
+    a1 = peer(0, set(), serve='none', listen=True)
+    b = peer(1, part, serve='good')
+    a2 = peer(2, set(range(n)), serve='good', label=a1['addr'] + '#2')      # the same peer, second visit
+    a2['addr'], a2['id'] = a1['addr'], a1['id']
+    steps = [{'op': 'advance', 'ms': 20}, send(0, hs(), bf(set())),
+             {'op': 'listen', 'peer': 2},                   # it keeps listening
+             send(0, fr('NotInterested')), {'op': 'advance', 'ms': 50},
+             {'op': 'connect', 'peer': 1}, send(1, hs(), bf(part)), send(1, fr('Unchoke')), {'op': 'advance', 'ms': 500},
+             {'op': 'close', 'peer': 1}, {'op': 'advance', 'ms': 1000, 'slice': 500},
+             send(2, hs(), bf(range(n))), send(2, fr('Unchoke')), {'op': 'advance', 'ms': 25000, 'slice': 1000}]
+    sc = base(gname, [a1, b, a2], steps, [{'k': 'peers', 'peers': [0]}, {'k': 'peers', 'peers': [0]}], pat=rng.randrange(251))
+    sc['family'] = 'honest'
+    sc['essential'] = [2]
+    return sc
